@@ -110,6 +110,8 @@ def recv(sock: socket.socket, bufsize: int) -> bytes:
 
         if r:
             return sock.recv(bufsize)
+        # nothing became readable within the socket's timeout: a timeout, not a lost connection
+        raise WebSocketTimeoutException("Connection timed out")
 
     try:
         if sock.gettimeout() == 0:
